@@ -78,10 +78,45 @@ fn judge(ctx: &Ctx, st: &mut St, rule_name: &str, base_src: &str, src: &str) {
     }
 }
 
+/// Ill-typed programs whose disagreement only shows through an un-annotated binding: a literal of the
+/// wrong kind (negative, bool, other suffix) inside an aggregate that is bound by `let` without a type
+/// and later used where an aggregate of another element type is expected (argument, annotated let,
+/// result). Enumerated.
+fn crafted_inference_programs() -> Vec<String> {
+    let mut v = vec![];
+    for (lit, elems) in [("-1", &["u8", "u16", "u64", "usize"][..]), ("-1i8", &["u8", "i16", "u64"][..]), ("true", &["u8", "i32"][..]), ("1u16", &["u8", "i16", "bool"][..]), ("false", &["u16"][..])] {
+        for elem in elems {
+            let other = if *elem == "bool" { "true" } else { "2" };
+            for (agg, ty) in [
+                (format!("({lit}, {other})"), format!("({elem}, {elem})")),
+                (format!("({other}, {lit})"), format!("({elem}, {elem})")),
+                (format!("[{lit}, {other}]"), format!("[{elem}; 2]")),
+                (format!("[{other}, {lit}, {other}]"), format!("[{elem}; 3]")),
+                (format!("(({lit}, {other}), {other})"), format!("(({elem}, {elem}), {elem})")),
+                (format!("[[{other}, {other}], [{lit}, {other}]]"), format!("[[{elem}; 2]; 2]")),
+                (format!("[({other}, {lit}); 2]"), format!("[({elem}, {elem}); 2]")),
+            ] {
+                v.push(format!("fn f(p: {ty}) -> u8 {{ 0u8 }}\npub fn main(x: u8) -> u8 {{ let t = {agg}; f(t) + x }}\n"));
+                v.push(format!("pub fn main(x: u8) -> u8 {{ let t = {agg}; let u: {ty} = t; x }}\n"));
+                v.push(format!("pub fn main(x: u8) -> {ty} {{ let t = {agg}; t }}\n"));
+                v.push(format!("pub fn main(x: u8) -> {ty} {{ let t = {agg}; if x == 0u8 {{ t }} else {{ t }} }}\n"));
+                v.push(format!("pub fn main(x: u8) -> u8 {{ let t = {agg}; let mut u: {ty} = t; u = t; x }}\n"));
+            }
+        }
+    }
+    v
+}
+
 pub fn run(ctx: &Ctx) -> i32 {
+    let crafted = crafted_inference_programs();
     let results = par(WORKERS, |w| {
         let mut rng = Rng::derive(ctx.seed, 0x1700 + w as u64);
         let mut st = St::default();
+        for (i, src) in crafted.iter().enumerate() {
+            if i % WORKERS == w {
+                judge(ctx, &mut st, "DisagreementThroughUnannotatedBinding", "(crafted)", src);
+            }
+        }
         while !ctx.out_of_time() {
             let profile = *rng.pick(&[Profile::Mixed, Profile::MutationHeavy, Profile::MatchFocused]);
             let mut cfg = GenCfg::new(profile);
